@@ -1118,7 +1118,7 @@ fn dump_env(w: &World, out: &mut Vec<String>) {
             }
         }
     }
-    let mut cr = String::with_capacity(8);
+    let mut cr = String::with_capacity(VALS.len());
     for f in w.can_redelegate.iter() {
         cr.push(if *f { '1' } else { '0' });
     }
